@@ -37,6 +37,50 @@ func (s *session) tweenField() (fd, dur protoreflect.FieldDescriptor) {
 	return nil, nil
 }
 
+// nudge writes the current value with its first top-level float field moved by 0.004 - less than any tolerance a
+// model is configured with (fan speed: 0.01), so whether it is due on the streams is not asserted; the streams are
+// not read.
+func (s *session) nudge(o *obs, name string, preMsg proto.Message) bool {
+	if preMsg == nil || !o.Pre.Ok {
+		return false
+	}
+	var fd protoreflect.FieldDescriptor
+	fields := s.tr.res.Fields()
+	for i := 0; i < fields.Len(); i++ {
+		f := fields.Get(i)
+		if (f.Kind() == protoreflect.FloatKind || f.Kind() == protoreflect.DoubleKind) && !f.IsList() && !f.IsMap() {
+			fd = f
+			break
+		}
+	}
+	if fd == nil {
+		return false
+	}
+	val := proto.Clone(preMsg).ProtoReflect()
+	if fd.Kind() == protoreflect.FloatKind {
+		val.Set(fd, protoreflect.ValueOfFloat32(float32(val.Get(fd).Float())+0.004))
+	} else {
+		val.Set(fd, protoreflect.ValueOfFloat64(val.Get(fd).Float()+0.004))
+	}
+	req := s.request(s.tr.update, s.tr.updName, name)
+	req.Set(s.tr.updValue, protoreflect.ValueOfMessage(val))
+	o.ValKind = "nudge"
+	m, err := s.unary(s.tr.update, req)
+	o.Code, o.Panic = errCode(err)
+	o.Resp = absMsg(s.tr.res, m)
+	o.Post = s.fullGet()
+	if err == nil {
+		s.armed = false
+	}
+	for _, ps := range s.streams {
+		o.Streams = append(o.Streams, s.snapshot(ps))
+		if err == nil {
+			ps.pending++
+		}
+	}
+	return true
+}
+
 // pullOnce opens a Pull with a read mask, reads its first message and closes it again.
 func (s *session) pullOnce(o *obs, op genOp, name string, preMsg proto.Message) bool {
 	if s.tr.pullMask == nil {
